@@ -31,6 +31,7 @@ def run(report, db, tier):
     chain(report, db, S, M)
     registration(report, db, S, M)
     deferred_write_error(report, db, S, M)
+    decoder_errors_escape(report, db, cg, M)
     # the reactor's handler goes first (R14.0) and may claim an exception:
     # the only one that does claims exactly EOFError during the status probe
     from .. import shared
@@ -146,6 +147,41 @@ def deferred_write_error(report, db, S, M):
         report.ok(R, 'every cycle that caught a write error re-raises it or '
                   'has seen a disconnect packet (%d paths)' % n)
     report.floor('cycle paths that keep a write-phase exception', n, 4)
+
+
+def decoder_errors_escape(report, db, cg, M):
+    """'Any exception escaping ... packet decoding ... ends that thread':
+    inside read_packet no handler takes what a packet's decoder raises (a
+    handler meant for the table lookup that also covers Packet.read would
+    turn a decoder's KeyError into "unknown packet")."""
+    from .. import shared
+    R = report.rule('R14.1d', 'an exception raised while a packet is decoded '
+                    'leaves read_packet: no handler there takes it')
+    rp = M.method(M.reactor, 'read_packet')
+    S = shared.summariser(db, cg)
+    n = 0
+    bad = None
+    for p in S.run(rp):
+        dec = [e for e in p.flat(('call',)) if shared.is_packet_decode(e)]
+        n += len(dec)
+        nodes = set(id(e.node) for e in dec)
+        for nt in p.notes:
+            if nt[0] == 'caught' and len(nt) > 3 and id(nt[3]) in nodes:
+                bad = (nt, p)
+    if bad:
+        nt, p = bad
+        report.violation(R, 'decode:swallowed', rp.path, nt[1], rp.qualname,
+                         'an exception of the packet decoder (%s) is taken '
+                         'by `except %s` inside read_packet: the thread goes '
+                         'on with a blank packet, no handler is called and '
+                         'nothing is recorded' % (
+                             ast.unparse(nt[3])[:40],
+                             ast.unparse(nt[1].type) if nt[1].type is not None
+                             else ''))
+    else:
+        report.ok(R, 'no handler in read_packet covers the decoder call '
+                  '(%d decode sites on the paths)' % n)
+    report.floor('packet decode sites in read_packet', n, 1)
 
 
 def _s1(db, cg, M):
@@ -400,6 +436,13 @@ def chain(report, db, S, M):
             break
         if not truth and not raised:
             bad0 = 'the result of the reactor\'s handler is ignored'
+            break
+        if raised and p.returns and not [
+                e for e in evs[1:] if e.kind == 'loop' or (
+                    e.kind == 'call' and e.fn != ('ext', 'sys.exc_info'))]:
+            bad0 = 'when the reactor\'s handler itself raises (its ' \
+                'reconnect failed), the dispatch ends as if it had handled ' \
+                'the exception: no handler runs, nothing is recorded'
             break
         if p.raises and len(p.outcome) > 3:
             continue        # an exception nothing here is meant to catch
@@ -745,6 +788,9 @@ def registration(report, db, S, M):
         elif e.fn[2] == 'insert' and len(e.args) == 2 and \
                 e.args[0] == ('const', 0):
             pos, entry = 'first', e.args[1]
+        elif e.fn[2] == 'insert' and len(e.args) == 2 and \
+                struct(e.args[0]) == ('op', 'len', (lst,)):
+            pos, entry = 'last', e.args[1]      # insert(len(l), x): append
         else:
             pos, entry = repr(e), None
         seen[early] = pos
